@@ -1189,6 +1189,8 @@ def oracle_c10(script: list[list], res: dict, cfg: dict, error_class: Any) -> li
                     current = 0
         if ev[0] in ('teardown', 'reestablish', 'stop'):
             teardown_pending = True
+        elif cur0 and cur0 in closed_now and not cause_of(ev, st0, hold):
+            teardown_pending = False
         # the remote's NOTIFICATION (well-formed or not) on the connection in use
         if ev[0] == 'recv' and ev[2] in ('notification', 'notifBadLen') and ev[1] == cur0 and st0 in CONNECTED[1:]:
             got_notification.add(ev[1])
@@ -1203,12 +1205,16 @@ def oracle_c10(script: list[list], res: dict, cfg: dict, error_class: Any) -> li
         words, must_end = cause
         mine = [k for cid, k, _ in writes if cid == cur0 and not (k == 'KEEPALIVE' or (k in ('UPDATE', 'EOR', 'REFRESH') and ev[0] == 'holdExpired'))]
         ended = cur0 in closed_now
+        if ended and teardown_pending:
+            notifs = [k for k in mine if k.startswith('NOTIFICATION')]
+            teardown_pending = False
+            if not notifs or notifs[-1].startswith('NOTIFICATION 6 '):
+                continue  # the API asked for this session to end (cease, or graceful restart: no NOTIFICATION): not this event's doing
         if not ended:
             if must_end and not (ev[0] == 'holdExpired' and st0 == 'OPENCONFIRM'):
                 bad.append(('unanswered', f'{words} in {st0}: the session goes on, nothing is written'))
             continue
-        if teardown_pending and ev[0] == 'recv' and words.startswith('unexpected') is False and mine and mine[-1].startswith('NOTIFICATION 6 '):
-            continue  # the API asked for the session to end at the same moment
+        mine = [k for k in mine if k not in ('UPDATE', 'EOR', 'REFRESH')] if ev[0] == 'recv' else mine
         allowed = error_class(words, st0)
         if not allowed:
             if mine:
@@ -1499,7 +1505,7 @@ def run_property(ctx: Any, prop: str, fault_weight: float) -> None:
     for sig in sorted(pending):
         rule = sig[0]
         best = None
-        for script, cfg, what in sorted(pending[sig], key=lambda x: (len(x[0]), json.dumps(x[0])))[:2]:
+        for script, cfg, what in sorted(pending[sig], key=lambda x: (len(x[0]), json.dumps(x[0])))[: 2 if quick else 1]:
             small, scfg = shrink_script(script, cfg, lambda c, k, rule=rule: any(x[0] == rule for x in judge(c, k)))
             desc = next((x[1] for x in judge(small, scfg) if x[0] == rule), what)
             rank = (len(scfg), len(small), sum(1 for e in small if e[0] == 'incoming'), json.dumps(small))
